@@ -30,11 +30,13 @@ type NodeSpec struct {
 
 	Gate  bool   `json:"gate,omitempty"`  // body waits for the completion controller
 	Fault string `json:"fault,omitempty"` // "", err, panic, streamerr (error item after some chunks)
-	Rerun int    `json:"rerun,omitempty"` // body returns InterruptAndRerun on its first Rerun attempts
-	PreH  string `json:"preh,omitempty"`  // state pre-handler: "", v, s
-	PostH string `json:"posth,omitempty"` // state post-handler: "", v, s
-	PS    bool   `json:"ps,omitempty"`    // body calls ProcessState
-	Alt   bool   `json:"-"`               // model only: perturb the node function (influence analysis)
+	// FaultEOF: the error of an injected failure additionally wraps io.EOF
+	FaultEOF bool   `json:"feof,omitempty"`
+	Rerun    int    `json:"rerun,omitempty"` // body returns InterruptAndRerun on its first Rerun attempts
+	PreH     string `json:"preh,omitempty"`  // state pre-handler: "", v, s
+	PostH    string `json:"posth,omitempty"` // state post-handler: "", v, s
+	PS       bool   `json:"ps,omitempty"`    // body calls ProcessState
+	Alt      bool   `json:"-"`               // model only: perturb the node function (influence analysis)
 }
 
 // Edge is a connection. In graph modes it is a plain AddEdge. In workflow mode:
